@@ -678,6 +678,9 @@ func c09groups(quick bool) []c09Case {
 				if !quick && nmID == "n" {
 					leaves = []string{"int", "str"}
 				}
+				if depth == 2 && nmID == "n" && (root == "query" || root == "response-header") {
+					leaves = []string{"int", "str"} // innermost type and enum violations both
+				}
 				for _, leaf := range leaves {
 					g := c09Case{Fam: "simple", Root: root, Chain: chain, Slot: depth, Names: nmID, Leaf: leaf, Cont: true}
 					add(g)
@@ -685,8 +688,11 @@ func c09groups(quick bool) []c09Case {
 						continue
 					}
 					for slot := depth - 1; slot >= 0; slot-- { // array values on an ancestor
-						if quick && (slot < depth-1 || depth == 2) {
+						if quick && depth != 2 && slot < depth-1 {
 							break
+						}
+						if quick && depth == 2 && root != "query" && root != "response-header" {
+							break // quick: array-of-array values on an ancestor for one parameter and one header root
 						}
 						g.Slot = slot
 						add(g)
